@@ -133,10 +133,10 @@ type profile struct {
 
 var profiles = []profile{
 	{Name: "plain", Seps: []string{" "}},
-	{Name: "lower-newline", Seps: []string{"\n", " ", "\t"}, Case: 1, Lead: "\n", Tail: "\n"},
 	{Name: "mixed-comments", Seps: []string{" /*c*/ ", " -- c\n", "/**/", " # x\n ", " "}, Case: 2, Lead: "/* lead */ ", Tail: " -- tail"},
-	{Name: "unicode-space", Seps: []string{"\u00a0", " \u3000", "\u2028", "\u0085 ", "\u2003\t", "\v\f"}, Case: 1, Lead: "\u00a0", Tail: "\u3000"},
 	{Name: "tight", Seps: []string{" "}, Case: 0},
+	{Name: "unicode-space", Seps: []string{"\u00a0", " \u3000", "\u2028", "\u0085 ", "\u2003\t", "\v\f"}, Case: 1, Lead: "\u00a0", Tail: "\u3000"},
+	{Name: "lower-newline", Seps: []string{"\n", " ", "\t"}, Case: 1, Lead: "\n", Tail: "\n"},
 	{Name: "slashslash", Seps: []string{" //z\n", "\r\n", "  "}, Case: 1},
 	{Name: "mixed2", Seps: []string{" ", "/*a*//*b*/", "\n\n"}, Case: 2},
 }
@@ -162,6 +162,9 @@ func tightOK(prev, next string) bool {
 		return false
 	}
 	p, n := prev[len(prev)-1], next[0]
+	if (next == "." && !(p >= '0' && p <= '9')) || (prev == "." && !(n >= '0' && n <= '9')) {
+		return true // a.b, f(x).y  - but never "1." or ".5", which would lex as numbers
+	}
 	if (prev == ">" && next == ">") || (prev == "<" && next == ">") {
 		return true // closing two type brackets at once ('>>'), empty field list ('<>')
 	}
